@@ -52,7 +52,7 @@ def cli_cases(B, wd, cases, rnd, nfiles):
 def make_cases(rnd, tier, n_cat=None, n_rand=None, freqs=rrgen.FREQS, pid=PID):
     cat = rrgen.catalogue(rnd, tier)
     if n_cat: cat = cat[:n_cat]
-    nr = n_rand if n_rand is not None else (100000 if tier == 'thorough' else 1200)
+    nr = n_rand if n_rand is not None else (60000 if tier == 'thorough' else 1200)
     allc = cat + [rrgen.random_case(rnd, freqs) for _ in range(nr)]
     cases = []
     # the witnesses of the open known findings always run first
@@ -107,7 +107,7 @@ def run(tier, seed, pid=PID):
     with open(trace, 'w') as f:
         for r in allrecs: f.write(json.dumps(r) + '\n')
     chunks = vlib.split_lines(trace, vlib.NCPU * (4 if tier == 'thorough' else 1), wd, 'rr', min_lines=50)
-    v = vlib.validate('TraceRRule.tla', 'TraceRRule.cfg', chunks, wd, timeout=3000)
+    v = vlib.validate('TraceRRule.tla', 'TraceRRule.cfg', chunks, wd, timeout=9000)
     bad = []
     for fn, k, g in v['bad'][:3000]:
         rec = json.loads(vlib.getline(fn, k))
